@@ -92,7 +92,8 @@ def po2_exponents(spec):
   eff = nsb - need
   emin, emax = -(2 ** eff), 2 ** eff - 1
   if mv is not None:
-    emax = min(emax, int(np.floor(np.log2(mv))))
+    # x is clipped to max_value, then log2 is rounded: 6 -> 2^3
+    emax = min(emax, int(np.round(np.log2(mv))))
   return emin, emax
 
 
@@ -312,7 +313,8 @@ def st_kernel_q(st, wide=False):
                 st.integers(3, 6), st.integers(0, 1),
                 st.sampled_from(["auto_po2", "auto_po2", "none_as_auto"])),
       st.builds(lambda b, mv: {"t": "po2", "bits": b, "mv": mv},
-                st.integers(3, 5), st.sampled_from([None, None, 2.0, 4.0, 1.0, 0.5])),
+                st.integers(3, 5),
+                st.sampled_from([None, None, 2.0, 4.0, 1.0, 0.5, 3.0, 6.0, 1.5])),
       st.builds(lambda b: {"t": "po2", "bits": b, "mv": None}, st.integers(3, 5)),
       st.just({"t": "bin"}), st.just({"t": "ter"}))
 
